@@ -240,3 +240,14 @@ def evaluate(x, model):
         return bytes(v if isinstance(v, int) else ev(v)
                      for v in x._sx_elems())
     return x
+
+
+def shards(cell, n, depth=6):
+    """Split one cell over n processes: sub-cell i explores the decision
+    prefixes of the given depth whose hash is i mod n (together: all)."""
+    out = []
+    for i in range(n):
+        c = dict(cell)
+        c['_shard'] = [i, n, depth]
+        out.append(c)
+    return out
